@@ -427,6 +427,42 @@ def tcols(chk, prog, rule="T-COLS"):
                     chk.ok(rule, STEP_FN, construct, "field of the same name")
                 else:
                     chk.violation(rule, STEP_FN, construct, f"column {c} does not carry the state field of that name", loc=step.loc(e))
+    # actual vs potential: the "potential" column carries the return that is also kept in the state
+    # (e_pot / t_pot, the demand used by next day's irrigation), the "actual" column a different return
+    st_wf = s.state_in[s.cfg.node_of(w["water_flux"]).id]
+    for act, pot, fn, field in (("Es", "EsPot", "soil_evaporation", "e_pot"), ("Tr", "TrPot", "transpiration", "t_pot")):
+        cal = prog.find_func(fn)
+        idx = {}
+        for c in (act, pot):
+            a = _single_atom(s.nf(w["water_flux"].value.elts[cols["water_flux"].index(c)], st_wf))
+            m = re.match(r"^([\w.]+)@\d+\[(\d+)\]~\d+$", a or "")
+            idx[c] = int(m.group(2)) if m else None
+        construct = f"water_flux.{pot} is the potential ({fn}'s value kept as STATE.{field}), water_flux.{act} is not"
+        sc = Sym(prog, cal)
+        rets = [r for r in walk_no_nested(cal.node) if isinstance(r, ast.Return) and isinstance(r.value, ast.Tuple)]
+        good = idx[act] is not None and idx[pot] is not None and bool(rets)
+        for nn, stt in sc.at_return():
+            el = nn.ast.value.elts
+            if not good or max(idx.values()) >= len(el):
+                good = False
+                break
+            # value kept as the state's demand: returned position assigned to STATE.<field> by the step, or the attribute set in the callee
+            kept = None
+            call = [c for c, t in prog.calls_in(step) if getattr(t, "key", None) == cal.key][0]
+            tg = [a for a in walk_no_nested(step.node) if isinstance(a, ast.Assign) and a.value is call][0].targets[0].elts
+            for i, t in enumerate(tg):
+                if isinstance(t, ast.Attribute) and t.attr == field:
+                    kept = sc.nf(el[i], stt)
+            if kept is None:
+                for k, v in stt.env.items():
+                    if k.endswith("." + field):
+                        kept = v
+            if kept is None or not A.equal(sc.nf(el[idx[pot]], stt), kept) or A.equal(sc.nf(el[idx[act]], stt), kept):
+                good = False
+        if good:
+            chk.ok(rule, STEP_FN, construct, f"returns #{idx[pot]} (potential) and #{idx[act]} (actual)")
+        else:
+            chk.violation(rule, STEP_FN, construct, f"the actual and potential columns of {fn} are not the actual / potential values it returns", loc=step.loc(w["water_flux"]))
     # water_storage: 3 leading columns
     ws = [n for n in walk_no_nested(step.node) if isinstance(n, ast.Assign) and isinstance(n.targets[0], ast.Subscript)
           and isinstance(n.targets[0].value, ast.Attribute) and n.targets[0].value.attr == "water_storage"]
